@@ -76,10 +76,19 @@ def gen_spec(rng, trait=None, kind=None, co_ok=True):
             active = not (trait == "Default" and kind == "enum" and vi != spec["dv"])
             v = {"style": rng.choice(["named", "tuple"]), "fields": [], "active": active}
             v["place"] = gen_placement(rng, trait, alloc) if (kind == "enum" and active) else None
-            for fi in range(rng.randint(1, 2)):
+            # enum variants may have no fields at all (`V`, `V()`, `V {}`): variant-level bounds still count
+            nf = rng.randint(1, 2)
+            if kind == "enum" and rng.random() < 0.25:
+                nf = 0
+                v["style"] = rng.choice(["named", "tuple", "unit"])
+            for fi in range(nf):
                 f = {"place": gen_placement(rng, trait, alloc) if active else None, "g": None}
+                # Default: an explicit value on the field - its own default bound is gone, explicit bound(..) levels stay
+                f["dval"] = bool(trait == "Default" and active and rng.random() < 0.35)
                 v["fields"].append(f)
             spec["variants"].append(v)
+        if not any(v["fields"] for v in spec["variants"]):
+            continue    # the type parameter has to be used somewhere
         # field wrapper markers
         for v in spec["variants"]:
             for f in v["fields"]:
@@ -111,15 +120,18 @@ def bound_text(level):
     return "bound(" + ", ".join(parts) + ")"
 
 
-def placement_attrs(pl, trait, default_marker=False):
-    """Attribute strings for a placement (variant or field; the type's `this`/`common` go into the main list)."""
+def placement_attrs(pl, trait, default_marker=False, dval=None):
+    """Attribute strings for a placement (variant or field; the type's `this`/`common` go into the main list).
+    dval: text of an explicit default value for the field, or None."""
     out = []
     for lv in pl["chain"]:
         b = bound_text(lv)
         h = lv["helper"]
         if h == "default":
             if b is not None:
-                out.append(f"#[default(_, {b})]")
+                out.append(f"#[default({dval or '_'}, {b})]")
+            elif dval:
+                out.append(f"#[default({dval})]")
             elif default_marker:
                 out.append("#[default]")
         elif b is not None:
@@ -170,12 +182,13 @@ def render_item(spec, mode="cond", field_modes=None, name="Ty"):
         fs = []
         for fi, f in enumerate(v["fields"]):
             a = ""
-            if f["place"]:
-                a = " ".join(placement_attrs(f["place"], trait) + derive_ex_attr(f["place"], trait, cot))
-                a = a + " " if a else ""
             fm = (field_modes or {}).get(f["g"], mode)
+            if f["place"]:
+                dval = f"{D}{'Wr' if fm == 'cond' else 'Aw'}(::core::marker::PhantomData)" if f.get("dval") else None
+                a = " ".join(placement_attrs(f["place"], trait, dval=dval) + derive_ex_attr(f["place"], trait, cot))
+                a = a + " " if a else ""
             fs.append(f"{a}f{fi}: {field_ty(f, fm)}" if v["style"] == "named" else f"{a}{field_ty(f, fm)}")
-        bodies.append("{ " + ", ".join(fs) + " }" if v["style"] == "named" else "(" + ", ".join(fs) + ")")
+        bodies.append("{ " + ", ".join(fs) + " }" if v["style"] == "named" else ("(" + ", ".join(fs) + ")" if v["style"] == "tuple" else ""))
     if spec["kind"] == "struct":
         item = (f"pub struct {name}<T>{wh} {bodies[0]}" if spec["variants"][0]["style"] == "named" else f"pub struct {name}<T>{bodies[0]}{wh};")
     else:
@@ -228,7 +241,7 @@ def resolve(spec):
         cv = walk(v["place"], cont, out)
         for f in v["fields"]:
             cf = walk(f["place"], cv, out)
-            if cf:
+            if cf and not f.get("dval"):
                 out.add(("field", f["g"]))
     return out
 
